@@ -9,6 +9,12 @@ from . import c07
 PROP = "C08"
 MODULE = "OpnVerif.Props.C08"
 GRAN = "1:-24"
+# The loop-begin position is remembered in the middle of the tick call that meets it, so after every wrap-around the reported position (and the
+# delivery of the first events of the loop) is off by up to the size of that one call.  The linear reference therefore starts with a 1 ms call,
+# and positions / event times of looped runs are compared to within 2 ms.
+STEP = Fraction(1, 1024)
+FIRST = "tick 1:-10 " + GRAN
+LOOP_TOL = Fraction(1, 500)
 
 
 def pick_targets(song, rng, n):
@@ -63,6 +69,27 @@ def histories(ctx):
                 case["TA"] = load + ["tempo " + m, "tick %s %s" % (sq.dystr(t / mv), GRAN), "ctl", "tickall 200000 " + GRAN]
                 case["TB"] = load + ["tempo " + m, "seek " + ts, "ctl", "tickall 200000 " + GRAN]
             hs.append(case)
+        # with looping on: the seek must leave the loop bookkeeping as linear playback has it (the wrap-around afterwards delivers the same events)
+        if i % 3 == 0:
+            lsong = c07.gen_song(rng, loops=["none", "end-only", "start-only", "markers", "cc111"][(i // 3) % 5])
+            limg = lsong.encode()
+            lload = sq.PREFIX + ["opendata " + limg.hex(), "loop 1"]
+            ltl = gen_smf.reference_timeline(lsong)
+            ltot = max(t[0] for t in ltl)
+            lend = min([x[0] for x in ltl if x[4][0] == "loopend"] + [ltot])        # linear playback never gets behind the loop end
+            lstart = max([x[0] for x in ltl if x[4][0] == "loopstart"] + [Fraction(0)])
+            body = [x for x in ltl if lstart < x[0] < lend and x[4][0] in ("on", "off", "cc", "pc", "bend")]
+            if not body:
+                continue                      # a loop without anything in it (markers at the very end): what repeats is decided by C09's cases, not here
+            for t in [x for x in pick_targets(lsong, rng, 6) if STEP * 2 < x < lend][:1]:
+                ts = sq.dystr(t)
+                dur = sq.dystr(Fraction(float(ltot * 2 + 1)))                         # at least two wrap-arounds
+                hs.append({"song": lsong, "t": t, "loop": True,
+                           "A": lload + [FIRST, "tick %s %s" % (sq.dystr(t - STEP), GRAN), "ctl", "tick %s %s" % (dur, GRAN)],
+                           "B": lload + ["tell", "seek " + ts, "ctl", "tick %s %s" % (dur, GRAN)],
+                           "C": lload + [FIRST, "tick %s %s" % (sq.dystr(Fraction(float(ltot * Fraction(5, 4)))), GRAN), "seek " + ts, "ctl", "tick %s %s" % (dur, GRAN)],
+                           "PA": lload + [FIRST, "tick %s %s" % (sq.dystr(t - STEP), GRAN), "tick %s %s" % (dur, GRAN), "tell"],
+                           "PB": lload + ["seek " + ts, "tick %s %s" % (dur, GRAN), "tell"]})
         # beyond the end, negative
         beyond = sq.dystr(Fraction(float(total + 5)))
         D = load + ["tick 1:-3 " + GRAN, "seek " + beyond, "tell", "tickall 200000 " + GRAN]
@@ -100,12 +127,24 @@ def run(tier, replay=None):
             j = max(i for i, o in enumerate(ops[:k]) if o.startswith("opendata "))
             t = sq.dy(ops[k].split()[1]) if ":" in ops[k].split()[1] else Fraction(float(ops[k].split()[1]))
             ts = sq.dystr(Fraction(float(t)))
+            if "loop 1" in ops[:k]:
+                # looped regression input: `... opendata X / loop 1 / seek t / tick dur`
+                dur = ops[k + 1].split()[1]
+                pre = ops[:k]
+                tt = Fraction(float(t))
+                cases.insert(0, {"song": None, "t": tt, "loop": True,
+                                 "A": pre + [FIRST, "tick %s %s" % (sq.dystr(tt - STEP), GRAN), "ctl", "tick %s %s" % (dur, GRAN)],
+                                 "B": pre + ["seek " + ts, "ctl", "tick %s %s" % (dur, GRAN)],
+                                 "C": pre + ["seek " + ts, "ctl", "tick %s %s" % (dur, GRAN)],
+                                 "PA": pre + [FIRST, "tick %s %s" % (sq.dystr(tt - STEP), GRAN), "tick %s %s" % (dur, GRAN), "tell"],
+                                 "PB": pre + ["seek " + ts, "tick %s %s" % (dur, GRAN), "tell"]})
+                continue
             B = ops[:k] + ["seek " + ts, "ctl", "tickall 200000 " + GRAN]
             A = ops[:j + 1] + ["tick %s %s" % (ts, GRAN), "ctl", "tickall 200000 " + GRAN]
             cases.insert(0, {"song": None, "t": Fraction(float(t)), "A": A, "B": B, "C": B})
         flat = []
         for c in cases:
-            for k in ("A", "B", "C", "TA", "TB", "D", "E", "lin"):
+            for k in ("A", "B", "C", "TA", "TB", "D", "E", "lin", "PA", "PB"):
                 if k in c:
                     flat.append(c[k])
     res = sq.run(flat)
@@ -122,7 +161,7 @@ def run(tier, replay=None):
                 fail("implementation fault: %s" % r[:200], h); break
     for c in cases:
         got = {}
-        for k in ("A", "B", "C", "TA", "TB", "D", "E", "lin"):
+        for k in ("A", "B", "C", "TA", "TB", "D", "E", "lin", "PA", "PB"):
             if k in c:
                 got[k] = res[idx][0]; idx += 1
         if c["t"] is not None:
@@ -145,9 +184,27 @@ def run(tier, replay=None):
                     d = next(((x, y) for x, y in zip(pa, pb) if x != y), None)
                     fail("controller state after seeking to %.6f s%s differs from linear playback to that time: %s (linear) vs %s (seek); fields: patch,msb,lsb,volume,expression,pan,bend,sens msb,sens lsb,sustain,soft,lrpn,mrpn,nrpn,vibrato,aftertouch,portamento,porta-on,brightness,xg-perc" % (
                         float(t), " (after having played further)" if k == "C" else "", d[0] if d else a_ctl[2:4], d[1] if d else cf[2:4]), c[k]); continue
-                why = same_events(a_ev, events_after(io[-1]))
+                b_ev = events_after(io[-1])
+                if c.get("loop"):
+                    # the play window is cut off by the clock, not by the end of the song: events within 10 ms of the cut are delivered or not
+                    # depending on the tick granularity, in either run
+                    cut = t + sq.dy(c[k][-1].split()[1]) - Fraction(1, 100)
+                    a_cmp = [e for e in a_ev if e[1] < cut]
+                    b_ev = [e for e in b_ev if e[1] < cut]
+                else:
+                    a_cmp = a_ev
+                why = same_events(a_cmp, b_ev, LOOP_TOL if c.get("loop") else Fraction(1, 10**6))
                 if why:
                     fail("after seeking to %.6f s: %s" % (float(t), why), c[k])
+            if "PA" in got:
+                pa, pb = sq.core(got["PA"][-1]), sq.core(got["PB"][-1])
+                try:
+                    da = abs(sq.dy(pa.split("=")[1]) - sq.dy(pb.split("=")[1]))
+                except Exception:
+                    da = None
+                if da is None or da > LOOP_TOL:
+                    fail("with looping on, after seeking to %.6f s and playing %s s the position is %s, after linear playback of the same time %s" % (
+                        float(t), float(sq.dy(c["PB"][-2].split()[1])), pb, pa), c["PB"])
             if "TA" in got:
                 m = c["m"]
                 ta_ctl, ta_ev = ctl_fields(got["TA"][-2]), events_after(got["TA"][-1])
